@@ -156,10 +156,15 @@ def run(rep: Report):
     if rc != 0:
         rep.undecided("C17.standin.run", "bounded", "run the real generator on random grammars", "cpython-exec", err[-800:])
     else:
+        hidden = 0
         for rec in json_from(out):
             si.evaluations += 1
             if "error" in rec:
                 continue        # outside the domain (generator rejects the grammar)
+            # domain (quantifier of C17): left recursion hidden behind a nullable prefix is excluded
+            if analyse(rec["grammar"])[1] != analyse(rec["grammar"], skip_nullable_prefix=False)[1]:
+                hidden += 1
+                continue
             si.distinct_nontrivial += 1
             try:
                 ir = extract_parser("<generated>", None, src=rec["source"])
@@ -175,4 +180,6 @@ def run(rep: Report):
             if len(si.samples) < 2:
                 si.samples.append(rec["text"])
     si.seconds = time.time() - t0
+    if rc == 0:
+        rep.notes.append(f"random grammars outside the domain (left recursion hidden behind a nullable prefix): {hidden} skipped")
     rep.standins.append(si)
